@@ -77,7 +77,8 @@ CLAIMS = {
                 'partial = put, delete = delete; empty partial/delete = none); that the rewind value is assigned from the given block '
                 'numbers through min in all/partial (partial: also min with current progress) and never in delete; that pending matched '
                 'blocks are cleared in store and memory after every effective command, inside one matched-blocks critical section; that '
-                'update_block_number only raises. "Far enough for every sequence" is a value clause and not decided.',
+                'update_block_number only raises; that every other function which moves the filter progress reads and writes it under the lock '
+                'set_scripts holds (r7: a batch decided before a rewind cannot overwrite it). "Far enough for every sequence" is a value clause and not decided.',
         'note': 'Not decided: sufficiency of the rewind for every command sequence at every sync position.',
     },
     'C15': {
